@@ -1138,8 +1138,16 @@ func (e *Entry) Augment(addErrors bool) (processed, skipped int) {
 			unapplied = append(unapplied, a)
 			continue
 		}
-		if !target.IsDir() {
+		// anydata, anyxml, rpc and action entries have a (empty)
+		// directory but cannot be augmented (RFC 7950 7.17); the input
+		// and output of an rpc or action can.
+		switch {
+		case !target.IsDir(), target.Kind == AnyDataEntry, target.Kind == AnyXMLEntry:
 			e.errorf("%s: augment %s: target is a %s node and cannot have children", Source(a.Node), a.Name, target.Kind)
+			processed++
+			continue
+		case target.RPC != nil:
+			e.errorf("%s: augment %s: target is an rpc or action; only its input and output can have children", Source(a.Node), a.Name)
 			processed++
 			continue
 		}
